@@ -660,3 +660,36 @@ def secret_juniper(fam, args):
     else:
         bad = dx == dy or dx != outs["P"]
     return dict(violated=bad, observed=[vals, outs, dx, dy], detail="decrypt(X')=%r decrypt(Y')=%r P'=%r" % (dx, dy, outs["P"]))
+
+
+@register("total_line")
+def total_line(fam, args):
+    """C14: one line through one stage of the real pipeline (through FileAnonymizer.anonymize_io); any exception is a violation"""
+    _reseed_passlib()
+    stage, salt, a = args["stage"], args.get("salt", "S"), args["a"]
+    kw = dict(anon_pwd=False, anon_ip=False, salt=salt)
+    if stage == "pwd":
+        kw["anon_pwd"] = True
+    elif stage.startswith("ip"):
+        kw["anon_ip"] = True
+        kw["preserve_suffix_v4"] = 8
+        kw["preserve_suffix_v6"] = 8
+    elif stage == "words_as":
+        r1 = total_line(fam, dict(args, stage="words"))
+        r2 = total_line(fam, dict(args, stage="as"))
+        return dict(violated=r1["violated"] or r2["violated"], observed=[r1["observed"], r2["observed"]], detail="%s / %s" % (r1["detail"], r2["detail"]))
+    elif stage == "words":
+        kw["sensitive_words"] = ["se", "x"]
+    else:
+        kw["as_numbers"] = ["1", "12"]
+
+    class In:
+        def readlines(self):
+            return [a]
+    out = io.StringIO()
+    try:
+        fa = fam.files.FileAnonymizer(**kw)
+        fa.anonymize_io(In(), out)
+    except Exception as e:
+        return dict(violated=True, observed="EXC:%s: %s" % (type(e).__name__, e), detail="%r raised %s (written so far: %r)" % (a, type(e).__name__, out.getvalue()))
+    return dict(violated=False, observed=out.getvalue(), detail="ok")
